@@ -54,6 +54,10 @@ func project(sp *spec.Spec, ut *spec.UserType, view string, val any, depth int) 
 					alts = append(alts, a.Default)
 				}
 				exp[a.Name] = vtree.Alt(alts...)
+			} else if a.HasDef && a.Default != nil {
+				// a collection with a default: "unset on the client" may show as the default (the rule of C03 for
+				// attributes the wire does not carry); seen where the nested type is rebuilt by a generic conversion
+				exp[a.Name] = vtree.Alt(nil, a.Default)
 			}
 			continue
 		}
